@@ -249,6 +249,9 @@ func indexHeader(
 	initializing bool,
 	onHeader func(hdr *config.Header),
 ) error {
+	// Only records which carry encoded content had the codec suffixes added to their name
+	encodedSize := hdr.Size
+
 	uncompressedSize, ok := hdr.PAXRecords[records.STFSRecordUncompressedSize]
 	if ok {
 		size, err := strconv.Atoi(uncompressedSize)
@@ -259,7 +262,7 @@ func indexHeader(
 		hdr.Size = int64(size)
 	}
 
-	if hdr.FileInfo().Mode().IsRegular() {
+	if hdr.FileInfo().Mode().IsRegular() && encodedSize > 0 {
 		newName, err := suffix.RemoveSuffix(hdr.Name, compressionFormat, encryptionFormat)
 		if err != nil {
 			return err
